@@ -326,3 +326,13 @@ Proof.
 Qed.
 
 End Honest.
+
+(* every request_blob on a clean connection (nothing buffered, no connection_lost pending) - a reused one or a new
+   one - starts in the state the completion theorem talks about: several requests per connection *)
+Lemma request_starts hash n known c :
+  c_buf c = [] -> c_lost c = false -> (known = None \/ known = Some n) ->
+  Start hash n known (c_now c + c_T c) (request hash known c).
+Proof.
+  intros Hb Hl Hk. unfold request, Start, Init.
+  destruct (c_open c) eqn:Eo; cbn; rewrite ?Eo, ?Hb, ?Hl; repeat split; auto.
+Qed.
